@@ -684,6 +684,12 @@ class Ring:
                     return (h + u) if sgn > 0 else (h - u)
             if g == "log" and name == "exp":
                 return u if sgn > 0 else one / u
+            if g == "log" and name in ("sinh", "cosh"):
+                half = self.const(Fraction(1, 2))
+                if name == "cosh":
+                    return (u + one / u) * half
+                r = (u - one / u) * half
+                return r if sgn > 0 else -r
         if abs(c) == Fraction(1, 2) and g == "arccos" and name == "tan":
             s = self.sqrt(one - u * u)
             r = s / (one + u)
